@@ -799,6 +799,10 @@ def draw_single(ctx, mods, r, cid, nmax):
         # more states than fit an 8-bit counter / one block of 128 or 256
         n = int(r.choice([129, 200, 257]))
         ctx.count("sizes_beyond_8bit")
+        if r.random() < 0.2:
+            # ... or than one block of 512 / 1024 rows
+            n = int(r.choice([513, 515, 1027]))
+            ctx.count("sizes_beyond_512")
     style = str(r.choice(["dyadic", "int", "plateau", "const", "f32", "f64"],
                          p=[.3, .2, .1, .05, .2, .15]))
     exact = style in EXACT
